@@ -72,6 +72,18 @@ def ambiguous_reversed(cfg, model):
     return first_next in (0x100, 0x10000)
 
 
+def reference_checksum(pr_bytes):
+    """The checksum of a physical record (header up to the checksum field) the way the package documents its type: 16 bit big
+    endian words, each added with end-around carry, the sum rotated left by one bit after every word; an odd last byte is not
+    summed.  Written from that description, in modular arithmetic (not a transcription of the loop)."""
+    acc = 0
+    for i in range(0, len(pr_bytes) - 1, 2):
+        acc += (pr_bytes[i] << 8) | pr_bytes[i + 1]
+        acc = (acc & 0xFFFF) + (acc >> 16)           # end-around carry (acc < 2^17, one fold is enough)
+        acc = ((acc << 1) & 0xFFFF) | (acc >> 15)    # rotate left by one within 16 bits
+    return acc
+
+
 def mask_checksums(data, model):
     b = bytearray(data)
     for p in model['checksum_pos']:
@@ -113,6 +125,22 @@ def check_write(case, cc):
                 i, got[max(0, i - 4):i + 8].hex(), ref[max(0, i - 4):i + 8].hex()))
         if pos != model['lr_start']:
             cc.dev('write-positions', 'positions', 'write() returned %r, model %r' % (pos[:8], model['lr_start'][:8]))
+        if cfg['checksum'] and len(got) == len(ref) and mask_checksums(got, model) == ref:
+            k = 0
+            for prs in model['prs']:
+                for (_pos, hpos, _pp, _n, pr_len) in prs:
+                    cp = model['checksum_pos'][k]
+                    k += 1
+                    want = reference_checksum(got[hpos:cp])
+                    have = (got[cp] << 8) | got[cp + 1]
+                    if have != want:
+                        cc.dev('write-layout==LIS79', 'checksum-value', 'physical record at %d (%d bytes): checksum %04x, end-around-carry reference %04x' % (
+                            hpos, pr_len, have, want))
+                        break
+                else:
+                    continue
+                break
+            cc.cls('checksum-values-compared')
         # the checksum of a physical record is a function of that record: the records of the last logical record must carry the
         # checksums they get from a writer that has written nothing before (the value itself is not modelled: no reader checks it)
         if cfg['checksum'] and not cfg['rec_num'] and len(lrs) >= 2 and len(got) == len(ref):
